@@ -235,6 +235,28 @@ func emitDerived(out *Out, g *DocGen, root *ANode, hs HSpec, r *Rng) {
 				}
 			}
 		}
+		// (g0) the standalone hashing with the configured hasher takes a value of any Go type only through the datatype's range
+		// under that hasher's prime: outside it (p-1 as xsd:integer, a negative positiveInteger) the answer is an error whatever
+		// Go type carries the number - accepted, it would be the leaf of another number
+		{
+			pr := hs.Prime
+			half := new(big.Int).Rsh(new(big.Int).Sub(pr, big.NewInt(1)), 1)
+			type probe struct {
+				dt string
+				v  any
+			}
+			probes := []probe{{"integer", new(big.Int).Sub(pr, big.NewInt(1))}, {"integer", new(big.Int).Add(half, big.NewInt(1))}, {"positiveInteger", big.NewInt(-5)},
+				{"nonNegativeInteger", big.NewInt(-1)}, {"negativeInteger", big.NewInt(3)}, {"integer", new(big.Int).Set(pr)}}
+			if pr.IsUint64() {
+				probes = append(probes, probe{"integer", pr.Uint64() - 1}, probe{"integer", half.Uint64() + 1}, probe{"negativeInteger", uint64(3)}, probe{"nonPositiveInteger", uint(4)}, probe{"negativeInteger", uint32(3)})
+			}
+			for _, pb := range probes {
+				got, err := merklize.HashValueWithHasher(hs.H, xsdNS+pb.dt, pb.v)
+				if err == nil {
+					why = append(why, fmt.Sprintf("HashValueWithHasher(xsd:%s, %T %v) is outside the datatype's range under the configured prime %v but hashes to %v", pb.dt, pb.v, pb.v, pr, got))
+				}
+			}
+		}
 		// (g) values at and beyond the limits of the configured prime, through the merklizer's own value constructor: refused
 		// beyond, v or p+v inside - and a refusal changes nothing about what comes after
 		pr := hs.Prime
